@@ -39,6 +39,8 @@ type RunResult struct {
 	Sample    any              `json:"sample,omitempty"`
 	Tape      []int            `json:"tape,omitempty"`
 	Lines     []string         `json:"lines,omitempty"`
+	// Restart asks the harness to end this worker process after the run (abandoned goroutines).
+	Restart bool `json:"restart,omitempty"`
 }
 
 // RunCtx is what a world gets for one run.
@@ -153,6 +155,7 @@ func Main(t *testing.T, w World) {
 		t.Skip("VSIM_OUT not set; this test binary is driven by /verif/bin/vcheck")
 	}
 	debug.SetTraceback("all")
+	debug.SetMaxStack(256 << 20) // runaway recursion dies in a fraction of a second instead of eating 1 GB
 	of, err := os.OpenFile(outPath, os.O_CREATE|os.O_WRONLY|os.O_APPEND, 0o644)
 	if err != nil {
 		fmt.Fprintln(os.Stderr, err)
@@ -207,6 +210,11 @@ func Main(t *testing.T, w World) {
 			res.Tape = append([]int(nil), tape.Recorded()...)
 		}
 		emit(res)
+		if res.Restart && !replay {
+			emit(map[string]any{"ev": "restart", "next": run + 1})
+			of.Close()
+			os.Exit(0)
+		}
 	}
 
 	if tf := os.Getenv("VSIM_TAPE"); tf != "" {
